@@ -274,7 +274,10 @@ def WF.base (inp : Input) : Bool :=
   -- in place: no package-level name of the source equals a qualifier moq may use
   (!inPlace || (allCands inp).all fun c => !(inp.scope.any (·.1 = c))) &&
   -- the receiver `mock` must not capture a qualifier
-  !(s%"mock" ∈ allCands inp)
+  !(s%"mock" ∈ allCands inp) &&
+  -- a requested mock name is a declaration of the file: it must not be a qualifier the file
+  -- imports a package under (F-27: `moq . I:ctx` with package ctx imported)
+  R.all (fun i => !(i.mockName ∈ allCands inp))
 
 def WF.all (inp : Input) : Bool :=
   WF.base inp && WF.imports inp && WF.names inp && WF.generic inp && WF.ensure inp && WF.dest inp
